@@ -53,7 +53,7 @@ checks.update({
    text="Bases = 40-string menu + slot product (<=2 deviating slots); references = '', all '#f' / '?q' over Sigma^<=2, all scheme-less references over (Sigma minus ':')^<=k, and the serialization of every parsed base (B x B); the three entry points must agree and the five laws of the statement must hold for every pair.",
    note="Implementation against itself; no model. Gives a model-independent cross-check of the with-base half of C01."),
  "C14": dict(level="model_checking", design="§5 C14", technique="stateless model checking of the real code: all thread interleavings up to a preemption bound under a controlled scheduler with statement-level scheduling points, Go race detector as per-schedule oracle",
-   text="For every scenario (pairs of ~80 calls on shared package functions, Parsers, predefined profiles and shared base URLs; 3-thread and 2-calls-per-thread scenarios) all schedules with <=1 preemption (thorough 2) are executed on freshly built shared objects, plus one cold-process execution per scenario; oracles: race detector (hand-off creates no happens-before edge), result == solo result, package-level variables and shared URL observables unchanged, no panic.",
+   text="For every scenario (pairs of ~80 calls on shared package functions, Parsers, predefined profiles and shared base URLs; 3-thread and 2-calls-per-thread scenarios) all schedules with <=1 preemption (thorough: every pair at <=1, the quick-tier scenarios also at <=2) are executed on freshly built shared objects, plus one cold-process execution per scenario; oracles: race detector (hand-off creates no happens-before edge), result == solo result, package-level variables and shared URL observables unchanged, no panic.",
    note="Trusted: Go race detector, verif/sched, verif/instr. Scheduling granularity is the statement; at most 3 threads, 2 calls each. SearchParams() and setters are writes by design and only used on thread-private URLs."),
  "C15": dict(level="exploration", design="§5 C15", technique="bounded exhaustive enumeration of inputs x 4 diagnostic configurations with relational oracles",
    text="Every (input, base) of the C01 spaces is parsed under default / reporting / fail-on-validation-error / both; acceptance and all observables are related as the statement says; error types are checked against the constants read from errors/*.go of the current tree; failure flags checked on returned errors and recorded entries.",
